@@ -309,8 +309,8 @@ Proof.
     exists u. assert (u <> t). { intros ->. unfold holdsb in H1. rewrite A in H1. discriminate. }
     rewrite upd_other by assumption. auto.
   - intros u. thr_cases u t; auto. rewrite Ht; auto.
-  - intros u v a. thr_cases u t; thr_cases v t; rewrite ?Ht; auto. all: fail.
-  - intros u a. thr_cases u t; rewrite ?Ht; auto.
+  - intros u v a. thr_cases u t; thr_cases v t; rewrite ?Ht; try apply Itddis.
+  - intros u a. thr_cases u t; rewrite ?Ht; apply Itd.
 Qed.
 
 Lemma holds_in s al pl hl pe w u :
@@ -328,4 +328,119 @@ Lemma worker_unique s al pl hl pe w t u :
   Inv s al pl hl pe w -> flag (thr s t) = true -> flag (thr s u) = true -> t = u.
 Proof.
   intros I A B. apply (i_flag _ _ _ _ _ _ I) in A. apply (i_flag _ _ _ _ _ _ I) in B. congruence.
+Qed.
+
+Ltac open_step Hpc := unfold step; cbv zeta; rewrite Hpc; cbn [fst].
+
+(* (1) add_and_fetch on in_count: the item is announced; from 0 the caller
+   becomes the designated worker *)
+Lemma padd_inv s al pl hl pe w t :
+  Inv s al pl hl pe w -> pc (thr s t) = PAdd ->
+  Inv (fst (step s t)) (al ++ [arg (thr s t)]) pl hl (arg (thr s t) :: pe)
+      (if (inc s =? 0)%Z then Some t else w).
+Proof.
+  intros I Hpc. open_step Hpc. assert (HI := I). inv_split I.
+  assert (Fl : flag (thr s t) = false).
+  { assert (P := Ipp t). unfold ppart in P. rewrite Hpc in P. exact P. }
+  assert (Hw : w <> Some t). { intros E. apply (If t) in E. congruence. }
+  assert (Htd : todo (thr s t) = arg (thr s t) :: prog (thr s t)).
+  { unfold todo. rewrite Hpc. reflexivity. }
+  assert (Ha : arg (thr s t) <> 0 /\ ~ In (arg (thr s t)) pe /\ ~ In (arg (thr s t)) (stub :: pl)).
+  { apply (Itd t). rewrite Htd. left; reflexivity. }
+  destruct Ha as (Ha0 & Hape & Hach).
+  assert (Hnd : NoDup (arg (thr s t) :: prog (thr s t))). { rewrite <- Htd. apply Itdnd. }
+  constructor; cbn [head tail inc outc next data thr]; try assumption.
+  - intros u. thr_cases u t.
+    + cbn [flag]. destruct (inc s =? 0)%Z; split; auto; try discriminate.
+    + destruct (Z.eqb_spec (inc s) 0) as [E|E].
+      * split.
+        -- intros F. apply If in F. subst w. lia.
+        -- intros F. congruence.
+      * apply If.
+  - intros u. thr_cases u t.
+    + unfold ppart; cbn [pc arg]. left; reflexivity.
+    + assert (P := Ipp u). unfold ppart in *. destruct (pc (thr s u)); cbn [In]; intuition.
+  - intros u. thr_cases u t.
+    + cbn [flag]. intros Hb. apply Z.eqb_eq in Hb. unfold wpart; cbn [pc]. unfold wnorm.
+      destruct w; [lia|]. destruct Iwk as (A1 & A2 & A3 & A4). split; [exact A4|].
+      rewrite app_length; cbn [length]; lia.
+    + intros Fu. assert (W := Iwp u Fu). unfold wpart in *.
+      destruct (pc (thr s u)); unfold wnorm, wmid in *; rewrite ?app_length; cbn [length]; intuition lia.
+  - destruct (Z.eqb_spec (inc s) 0); [lia|]. destruct w; [lia|]. destruct Iwk; contradiction.
+  - intros u v. thr_cases u t; thr_cases v t; auto.
+    + intros _ Hv E. exfalso. destruct (holds_in _ _ _ _ _ _ v HI Hv) as [X|X];
+        rewrite <- E in X; cbn [arg] in X; contradiction.
+    + intros Hu _ E. exfalso. destruct (holds_in _ _ _ _ _ _ u HI Hu) as [X|X];
+        rewrite E in X; cbn [arg] in X; contradiction.
+  - rewrite app_length; cbn [length]; lia.
+  - intros a Ha. apply in_app_or in Ha. destruct Ha as [Ha|[<-|[]]].
+    + destruct (Ialog a Ha); [left|right;right]; auto.
+    + right; left; reflexivity.
+  - intros i Hi. destruct (Ilink i Hi) as [L|[u (A & B & C)]]; [left; exact L|right].
+    exists u. assert (u <> t) by (intros ->; congruence).
+    rewrite upd_other by assumption. auto.
+  - constructor; auto.
+  - intros a [<-|Ha]; auto.
+  - intros u. thr_cases u t.
+    + unfold todo; cbn [pc prog]. inversion Hnd; auto.
+    + apply Itdnd.
+  - intros u v a. thr_cases u t; thr_cases v t.
+    + intros; congruence.
+    + unfold todo at 1; cbn [pc prog]. intros _ Ha. apply (Itddis t v a); auto. rewrite Htd. right; exact Ha.
+    + unfold todo at 2; cbn [pc prog]. intros _ Ha Hb. apply (Itddis u t a); auto. rewrite Htd. right; exact Hb.
+    + apply Itddis.
+  - intros u a. thr_cases u t.
+    + unfold todo; cbn [pc prog]. intros Ha.
+      assert (D := Itd t a). rewrite Htd in D. specialize (D (or_intror Ha)).
+      assert (a <> arg (thr s t)). { intros ->. inversion Hnd; contradiction. }
+      destruct D as (D1 & D2 & D3). repeat split; auto. intros [X|X]; [congruence|auto].
+    + intros Ha. assert (D := Itd u a Ha).
+      assert (a <> arg (thr s t)).
+      { intros ->. apply (Itddis u t _ n Ha). rewrite Htd. left; reflexivity. }
+      destruct D as (D1 & D2 & D3). repeat split; auto. intros [X|X]; [congruence|auto].
+Qed.
+
+(* ---------- frame lemmas for the per-thread clauses ---------- *)
+Lemma todo_with_pc T p : p <> PAdd -> pc T <> PAdd -> todo (with_pc T p) = todo T.
+Proof. intros A B. unfold todo. cbn [pc prog with_pc]. destruct p, (pc T); congruence. Qed.
+
+Lemma todo_frame (th : nat -> tst) t T' (pe ch : list nat) :
+  todo T' = todo (th t) ->
+  (forall u, NoDup (todo (th u))) ->
+  (forall u v a, u <> v -> In a (todo (th u)) -> ~ In a (todo (th v))) ->
+  (forall u a, In a (todo (th u)) -> a <> 0 /\ ~ In a pe /\ ~ In a ch) ->
+  (forall u, NoDup (todo (upd th t T' u))) /\
+  (forall u v a, u <> v -> In a (todo (upd th t T' u)) -> ~ In a (todo (upd th t T' v))) /\
+  (forall u a, In a (todo (upd th t T' u)) -> a <> 0 /\ ~ In a pe /\ ~ In a ch).
+Proof.
+  intros Ht A B C. split; [|split].
+  - intros u. thr_cases u t; rewrite ?Ht; auto.
+  - intros u v a. thr_cases u t; thr_cases v t; rewrite ?Ht; apply B.
+  - intros u a. thr_cases u t; rewrite ?Ht; apply C.
+Qed.
+
+Lemma flag_frame (th : nat -> tst) t T' (w : option nat) :
+  flag T' = flag (th t) ->
+  (forall u, flag (th u) = true <-> w = Some u) ->
+  forall u, flag (upd th t T' u) = true <-> w = Some u.
+Proof. intros Hf A u. thr_cases u t; rewrite ?Hf; apply A. Qed.
+
+Lemma uni_frame (th : nat -> tst) t T' :
+  (holdsb T' = true -> holdsb (th t) = true) -> arg T' = arg (th t) ->
+  (forall u v, holdsb (th u) = true -> holdsb (th v) = true -> arg (th u) = arg (th v) -> u = v) ->
+  forall u v, holdsb (upd th t T' u) = true -> holdsb (upd th t T' v) = true ->
+              arg (upd th t T' u) = arg (upd th t T' v) -> u = v.
+Proof.
+  intros Hh Ha A u v. thr_cases u t; thr_cases v t; auto; rewrite ?Ha; intros; apply A; auto.
+Qed.
+
+Lemma link_frame (th : nat -> tst) t T' (pl : list nat) (nx nx' : nat -> nat) i :
+  pc (th t) <> PLink -> nx' (cn pl i) = nx (cn pl i) ->
+  (nx (cn pl i) = cn pl (S i) \/
+   exists u, pc (th u) = PLink /\ prev (th u) = cn pl i /\ arg (th u) = cn pl (S i)) ->
+  nx' (cn pl i) = cn pl (S i) \/
+  exists u, pc (upd th t T' u) = PLink /\ prev (upd th t T' u) = cn pl i /\ arg (upd th t T' u) = cn pl (S i).
+Proof.
+  intros Hn E [L|[u (A & B & C)]]; [left; congruence|right].
+  exists u. assert (u <> t) by (intros ->; congruence). rewrite upd_other by assumption. auto.
 Qed.
